@@ -18,14 +18,24 @@ class Bench:
         self.exe = compile_harness(ctx, self.impl, "scenario_run", ["scenario_run.c"])
         self.pool = ThreadPoolExecutor(max_workers=NCPU)
         self.n = 0
+        self.hung = 0
 
     def run_many(self, jobs, env=None, timeout=60, nofile=None, sigint_ignored=False):
         """jobs: list of (scenario_text, reporter). Returns list of Obs (same order)."""
         def one(ij):
             i, (txt, rep) = ij
             wd = os.path.join(self.ctx.work, f"run{i % (NCPU * 2)}-{os.getpid()}-{i}")
+            # once several runs have not ended in the time allowed (a change that makes runs hang), the rest get a short limit: the check
+            # reports the runs that do not terminate instead of waiting for hundreds of them
+            t = timeout if self.hung < 6 else min(timeout, 5)
+            if self.hung >= 30:      # (dozens of runs have hung: the remaining ones are not started, they count as not terminating)
+                o = Obs(); o.rc, o.stdout, o.stderr, o.timeout, o.returned = None, "", "", True, None
+                o.events, o.fingerprints, o.files, o.reporter = [], [], {}, rep
+                return o
             try:
-                return run_impl(self.exe, txt, rep, wd, env=env, timeout=timeout, nofile=nofile, sigint_ignored=sigint_ignored)
+                o = run_impl(self.exe, txt, rep, wd, env=env, timeout=t, nofile=nofile, sigint_ignored=sigint_ignored)
+                if o.timeout: self.hung += 1
+                return o
             finally:
                 shutil.rmtree(wd, ignore_errors=True)
         return list(self.pool.map(one, enumerate(jobs)))
@@ -251,7 +261,8 @@ def report(ctx, bench, disagreements, oracle_fail, oracle, label, facts_fn=None)
             mm = run_model_scenarios([c.text()])[0]
             oo = bench.run_many([(c.text(), r)])[0]
             return oracle(c, mm, oo, r) is not None
-        small = shrink(s, still, budget=40)
+        # (a run that does not terminate is not shrunk: every attempt would wait for the time limit again)
+        small = s if (o.timeout or "terminate" in e) else shrink(s, still, budget=40)
         mm = run_model_scenarios([small.text()])[0]
         oo = bench.run_many([(small.text(), r)])[0]
         e2 = oracle(small, mm, oo, r) or e
